@@ -102,4 +102,5 @@ class Prop(G.InputPropBase):
                 for end in (b"", b"~", b"A", b";", b"M"):
                     g = intro + bytes(rng.choice(b"0123456789") for _ in range(n)) + end
                     cs.append(Case("I " + pair(g, n), cfgs=["C07"], sweep="digit-runs", tag="digit-run"))
+        cs += G.numeric_sweep("C07")
         return cs
